@@ -12,6 +12,12 @@ package queue
 //   TestVerifC12Free   free mode: real scheduler and clock with seeded yields/delays at the same
 //                      points, concurrent producers, retries and one shutdown, then a restart on the
 //                      same spool; monitor only.
+//
+// Both modes configure a scripted bounce pipeline (c12Dsn): the failure report of a message rejected for good /
+// out of tries is part of the attempt Close waits for; work an attempt leaves behind in another goroutine is
+// scheduled last (controlled) / held until the shutdown has begun (free): C12/work-running-after-close,
+// C12/outcome-lost-at-close, C12/outcome-lost, C12/failure-report-twice.  `tp<i>.<n>`, 16 <= n < 20: the next hop
+// rejects for good and the bounce pipeline panics while it takes the report.
 
 import (
 	"context"
@@ -375,9 +381,11 @@ type c12Target struct {
 	plan     map[string][]int // free mode: outcome of attempt k
 	attempts map[string]int
 	running  map[string]int
-	okCount  map[string]int // final outcomes: accepted, or rejected for good
-	panicAt  map[string]int // controlled mode: the next attempt of the message panics (stage n%4, kind of panic value n/4)
-	panicked map[string]int // panics thrown so far, per message
+	okCount  map[string]int  // final outcomes: accepted, or rejected for good
+	accepted map[string]int  // … of these: accepted by the next hop
+	panicAt  map[string]int  // controlled mode: the next attempt of the message panics (stage n%4, kind of panic value n/4)
+	panicked map[string]int  // panics thrown so far, per message
+	rejectNx map[string]bool // controlled mode: the next attempt of the message is rejected for good
 	events   []string
 	viol     []string
 	yield    bool
@@ -509,6 +517,11 @@ func (t *c12Target) Start(ctx context.Context, msgMeta *module.MsgMetadata, mail
 	}
 	d := &c12Delivery{t: t, id: id, boom: -1}
 	d.err, d.stage = c12Outcome(id, k, fail)
+	if t.rejectNx[id] {
+		delete(t.rejectNx, id)
+		fail = false
+		d.err, d.stage = exterrors.WithTemporary(errors.New("c12: rejected for good"), false), (k+c12MsgIdx(id))%4
+	}
 	d.final = d.err != nil && !fail
 	if t.stat != nil {
 		switch {
@@ -561,14 +574,110 @@ func (d *c12Delivery) Commit(ctx context.Context) error {
 	}
 	d.t.mu.Lock()
 	d.t.okCount[d.id]++
+	d.t.accepted[d.id]++
 	d.t.mu.Unlock()
 	d.end()
 	return nil
 }
 
+// ---------------------------------------------------------------- scripted bounce pipeline
+//
+// What the queue hands the failure report (DSN) of a message to (Queue.dsnPipeline).  The original message is
+// recognised by the recipient of the report (the sender "sender-m<i>@example.com" of message i).  A report is
+// "answered" once the pipeline has given its final answer: committed, or refused (every third message: the bounce
+// pipeline rejects the recipient of the report; the queue can only log that).  A SLOW bounce pipeline: in controlled
+// mode a submission made by a goroutine that is not a dispatch goroutine (i.e. work the attempt left behind) parks at
+// the scheduling point "c12dsn/submit" and is only let through when everything else has run; a submission made by
+// the attempt goroutine itself is part of the attempt's step (what the model has).  Free mode: the submission
+// waits until Queue.Close has been called (bounded), so a shutdown always overlaps with it.
+type c12Dsn struct {
+	mu        sync.Mutex
+	started   int
+	answered  map[int]int
+	committed map[int]int
+	refused   map[int]int
+	panicFor  map[int]int // the bounce pipeline panics while it takes the report of this message (kind of panic value)
+	park      bool
+	hold      func() // free mode
+	stat      func(string)
+}
+
+type c12DsnDelivery struct {
+	t   *c12Dsn
+	idx int
+}
+
+func c12NewDsn() *c12Dsn {
+	return &c12Dsn{answered: map[int]int{}, committed: map[int]int{}, refused: map[int]int{}, panicFor: map[int]int{}}
+}
+
+func c12Sender(i int) string { return "sender-m" + strconv.Itoa(i) + "@example.com" }
+
+// the return path of message i: every fourth message has the null return path (no failure report is due)
+func c12ReturnPath(i int) string {
+	if i%4 == 3 {
+		return ""
+	}
+	return c12Sender(i)
+}
+
+func (t *c12Dsn) Start(ctx context.Context, msgMeta *module.MsgMetadata, mailFrom string) (module.Delivery, error) {
+	t.mu.Lock()
+	t.started++
+	t.mu.Unlock()
+	if t.park {
+		if g := c12sched.Current(); g != nil && g.Tag != "attempt" {
+			if t.stat != nil {
+				t.stat("dsn.submitted-by-background-goroutine")
+			}
+			c12sched.Point("c12dsn/submit")
+		}
+	}
+	if t.hold != nil {
+		t.hold()
+	}
+	return &c12DsnDelivery{t: t, idx: -1}, nil
+}
+
+func (d *c12DsnDelivery) AddRcpt(ctx context.Context, to string, _ smtp.RcptOptions) error {
+	d.idx = c12MsgIdx(strings.TrimSuffix(strings.TrimPrefix(to, "sender-"), "@example.com"))
+	d.t.mu.Lock()
+	kind, boom := d.t.panicFor[d.idx]
+	delete(d.t.panicFor, d.idx)
+	d.t.mu.Unlock()
+	if boom {
+		c12Panic(kind)
+	}
+	if d.idx >= 0 && d.idx%3 == 2 {
+		d.t.mu.Lock()
+		d.t.answered[d.idx]++
+		d.t.refused[d.idx]++
+		d.t.mu.Unlock()
+		if d.t.stat != nil {
+			d.t.stat("dsn.refused-by-bounce-pipeline")
+		}
+		return exterrors.WithTemporary(errors.New("c12: the bounce pipeline does not take this"), false)
+	}
+	return nil
+}
+func (d *c12DsnDelivery) Body(ctx context.Context, header textproto.Header, body buffer.Buffer) error {
+	return nil
+}
+func (d *c12DsnDelivery) Abort(ctx context.Context) error { return nil }
+func (d *c12DsnDelivery) Commit(ctx context.Context) error {
+	d.t.mu.Lock()
+	d.t.answered[d.idx]++
+	d.t.committed[d.idx]++
+	d.t.mu.Unlock()
+	if d.t.stat != nil {
+		d.t.stat("dsn.committed")
+	}
+	return nil
+}
+
 func c12NewTarget() *c12Target {
-	return &c12Target{decision: map[string]int{}, attempts: map[string]int{}, running: map[string]int{}, okCount: map[string]int{},
-		panicAt: map[string]int{}, panicked: map[string]int{}}
+	return &c12Target{decision: map[string]int{}, attempts: map[string]int{}, running: map[string]int{}, okCount: map[string]int{}, accepted: map[string]int{},
+		panicAt: map[string]int{}, panicked: map[string]int{}, rejectNx: map[string]bool{}}
 }
 
 // ---------------------------------------------------------------- common set-up
@@ -613,8 +722,8 @@ func c12MsgIdx(id string) int {
 // spooled but not scheduled (what a restart finds on disk).
 func c12Spool(q *Queue, i int) *queueDelivery {
 	ctx := context.Background()
-	meta := &module.MsgMetadata{ID: c12MsgID(i), OriginalFrom: "", DontTraceSender: true}
-	d, err := q.Start(ctx, meta, "sender@example.com")
+	meta := &module.MsgMetadata{ID: c12MsgID(i), OriginalFrom: c12ReturnPath(i), DontTraceSender: true}
+	d, err := q.Start(ctx, meta, c12Sender(i))
 	if err != nil {
 		panic(err)
 	}
@@ -709,6 +818,11 @@ type c12World struct {
 	boomG         map[int]bool // attempt goroutines whose delivery was scripted to panic
 	boomMsg       map[int]bool // their messages
 	quarLate      int          // Close returned while the quarantine rename of such a message was still to come
+	dsn           *c12Dsn
+	extra         []*c12sched.G // goroutines the queue's code started that are neither the scheduler nor a dispatch goroutine
+	extraBy       []string
+	lateWork      []string // … of these: still running when Close returned
+	lostAtClose   []string // messages gone from the spool when Close returned, terminal outcome not recorded anywhere
 }
 
 func (w *c12World) pc(g *c12sched.G) string {
@@ -1030,6 +1144,9 @@ func (w *c12World) auto(label string) bool {
 	if _, ok := c12PcOf[base]; ok {
 		return false
 	}
+	if strings.HasPrefix(base, "c12dsn/") {
+		return false
+	}
 	p := c12Parse(label)
 	switch p.kind {
 	case "lock", "wgwait":
@@ -1097,7 +1214,41 @@ func (w *c12World) grant(gs ...*c12sched.G) {
 		if w.tick != nil && !w.tick.Finished {
 			w.tickAlive = w.pc(w.tick)
 		}
+		// … nothing an attempt left behind is still at work, and what is gone from the spool has its terminal outcome
+		for i, g := range w.extra {
+			if fin, _ := g.Result(); !fin {
+				w.lateWork = append(w.lateWork, fmt.Sprintf("goroutine %q started by %s is still running (at %s)", g.Name, w.extraBy[i], c12Base(g.Label)))
+			}
+		}
+		w.lostAtClose = w.outcomeLost()
 	}
+}
+
+// outcomeLost: the messages that are gone from the spool (nothing for a restart to pick up) although their terminal
+// outcome is recorded nowhere: not accepted by the next hop, and the failure report that is due (non-null return
+// path, bounce pipeline configured) has not been answered by the bounce pipeline.
+func (w *c12World) outcomeLost() []string {
+	var lost []string
+	sp := c12ReadSpool(w.dir, len(w.scn.times))
+	for i, s := range sp {
+		if s.meta || s.broken || s.header || s.body {
+			continue
+		}
+		if _, err := os.Stat(filepath.Join(w.dir, c12MsgID(i)+".meta_hidden")); err == nil {
+			continue
+		}
+		w.tgt.mu.Lock()
+		acc, tried := w.tgt.accepted[c12MsgID(i)], w.tgt.attempts[c12MsgID(i)]
+		w.tgt.mu.Unlock()
+		w.dsn.mu.Lock()
+		ans := w.dsn.answered[i]
+		w.dsn.mu.Unlock()
+		if tried == 0 || acc > 0 || ans > 0 || c12ReturnPath(i) == "" {
+			continue
+		}
+		lost = append(lost, fmt.Sprintf("message %d (attempts %d, every one failed) is gone from the spool and its failure report has not been taken by the bounce pipeline", i, tried))
+	}
+	return lost
 }
 
 type c12Tok struct {
@@ -1126,7 +1277,7 @@ func c12ParseTok(s string) (c12Tok, bool) {
 		}
 		i, e1 := strconv.Atoi(f[0])
 		c, e2 := strconv.Atoi(f[1])
-		return c12Tok{kind: "tp", i: i, c: c}, e1 == nil && e2 == nil && i >= 0 && c >= 0 && c < 16
+		return c12Tok{kind: "tp", i: i, c: c}, e1 == nil && e2 == nil && i >= 0 && c >= 0 && c < 20
 	case strings.HasPrefix(s, "t"):
 		f := strings.Split(s[1:], ".")
 		if len(f) != 2 {
@@ -1177,7 +1328,7 @@ func (w *c12World) can(t c12Tok) bool {
 		return w.solo(w.pt(w.thr[t.i]))
 	case "tp":
 		// the attempt is inside the delivery (parked in the scripted target's Start): the target can panic
-		if t.i < 0 || t.i >= len(w.thr) || t.c < 0 || t.c >= 16 {
+		if t.i < 0 || t.i >= len(w.thr) || t.c < 0 || t.c >= 20 {
 			return false
 		}
 		g := w.thr[t.i]
@@ -1317,8 +1468,25 @@ func (w *c12World) do(t c12Tok) {
 		}
 	case "tp":
 		g := w.thr[t.i]
+		if t.c >= 16 && c12ReturnPath(w.msgOf[t.i]) == "" {
+			t.c %= 16 // no failure report is due for this message: the next hop itself panics
+		}
 		w.tgt.mu.Lock()
-		w.tgt.panicAt[c12MsgID(w.msgOf[t.i])] = t.c
+		if t.c >= 16 {
+			// the next hop rejects the message for good and the bounce pipeline panics while it takes the failure
+			// report (kind of panic value n-16): still inside the attempt, still a panic of code the queue calls
+			id := c12MsgID(w.msgOf[t.i])
+			w.tgt.decision[id] = 0
+			w.tgt.rejectNx[id] = true
+			w.tgt.panicked[id]++
+			w.dsn.mu.Lock()
+			w.dsn.panicFor[w.msgOf[t.i]] = t.c - 16
+			w.dsn.mu.Unlock()
+			w.out.Stat("target.panic-in-bounce-pipeline")
+			w.out.Stat("target.panic-value-" + c12PanicKindName[t.c-16])
+		} else {
+			w.tgt.panicAt[c12MsgID(w.msgOf[t.i])] = t.c
+		}
 		w.tgt.mu.Unlock()
 		w.boomG[t.i] = true
 		w.boomMsg[w.msgOf[t.i]] = true
@@ -1520,6 +1688,10 @@ func c12Setup(out *vh.Out, scn c12Scn) *c12World {
 	w.tgt.yield = true
 	w.tgt.stat = out.Stat
 	w.q = c12NewQueue(w.dir, w.tgt, scn.budget+1)
+	w.dsn = c12NewDsn()
+	w.dsn.park = true
+	w.dsn.stat = out.Stat
+	w.q.dsnPipeline = w.dsn
 	var spawnMu sync.Mutex
 	w.ctl.OnSpawn = func(parent, child *c12sched.G) {
 		if parent == nil {
@@ -1530,7 +1702,8 @@ func c12Setup(out *vh.Out, scn c12Scn) *c12World {
 		switch {
 		case strings.HasPrefix(child.Name, "NewTimeWheel/go"):
 			w.tick = child
-		case strings.HasPrefix(child.Name, "Queue.dispatch"):
+		case strings.HasPrefix(child.Name, "Queue.dispatch") && parent.Tag == nil:
+			child.Tag = "attempt"
 			w.thr = append(w.thr, child)
 			w.kind = append(w.kind, "a")
 			msg := -1
@@ -1538,6 +1711,11 @@ func c12Setup(out *vh.Out, scn c12Scn) *c12World {
 				msg = w.disp[len(w.disp)-1].msg
 			}
 			w.msgOf = append(w.msgOf, msg)
+		default:
+			// work an attempt (or anybody else) leaves behind: it is scheduled last ("slow"), see c12Dsn
+			child.Tag = "background"
+			w.extra = append(w.extra, child)
+			w.extraBy = append(w.extraBy, parent.Name)
 		}
 	}
 	if _, ok := w.ctl.Spawn("start", func() {
@@ -1606,7 +1784,7 @@ func (w *c12World) candidates(r *vh.Rng, lazyTick bool) []c12Tok {
 		// the delivery panics (any stage of the dialogue, any kind of panic value); now and then offered
 		// to a goroutine that is not inside a delivery (not enabled)
 		if (w.pc(w.thr[i]) == "deliver" && r.Chance(14)) || r.Chance(1) {
-			c = append(c, c12Tok{kind: "tp", i: i, c: r.Intn(16)})
+			c = append(c, c12Tok{kind: "tp", i: i, c: r.Intn(20)})
 		}
 	}
 	if r.Chance(5) {
@@ -1785,6 +1963,21 @@ func c12RunControlled(out *vh.Out, scn c12Scn, sched []c12Tok, r *vh.Rng, steps 
 					continue
 				}
 			}
+			// the slow background work, when nothing else is left
+			moved := false
+			for _, g := range w.extra {
+				if fin, _ := g.Result(); fin || g.Label == "" {
+					continue
+				}
+				if strings.HasPrefix(g.Label, "c12dsn/") || strings.HasPrefix(g.Label, "c12target/") || w.solo(w.pt(g)) {
+					w.grant(g)
+					moved = true
+					break
+				}
+			}
+			if moved {
+				continue
+			}
 			break
 		}
 		w.do(*t)
@@ -1909,6 +2102,42 @@ func c12Monitor(w *c12World, op string) {
 	}
 	for _, v := range w.lateAttempts {
 		out.Violation("C12/attempt-running-after-close", op, "Queue.Close returned but "+v)
+	}
+	for _, v := range w.lateWork {
+		out.Violation("C12/work-running-after-close", op, "Queue.Close returned but "+v+": a process that exits now loses it, nobody waits for it")
+	}
+	for _, v := range w.lostAtClose {
+		out.Violation("C12/outcome-lost-at-close", op, "when Queue.Close returned "+v+": removed without its terminal outcome, nothing is left for the restart")
+	}
+	if w.clo == nil || !w.closeReturned {
+		for _, v := range w.outcomeLost() {
+			out.Violation("C12/outcome-lost", op, "nothing is left to run and "+v)
+		}
+	}
+	for i, g := range w.extra {
+		fin, pv := g.Result()
+		if !fin {
+			out.Violation("C12/goroutine-stuck", op, fmt.Sprintf("goroutine %q started by %s blocked forever at %s", g.Name, w.extraBy[i], c12Base(g.Label)))
+		} else if pv != nil {
+			out.Violation("C12/panic-not-contained", op, fmt.Sprintf("goroutine %q started by %s panicked (%v): the process would have crashed", g.Name, w.extraBy[i], pv))
+		}
+	}
+	w.dsn.mu.Lock()
+	for i, n := range w.dsn.answered {
+		out.Stat(fmt.Sprintf("dsn.reports-per-message.%d", n))
+		if n > 1 {
+			out.Violation("C12/failure-report-twice", op, fmt.Sprintf("message %d: %d failure reports were handed to the bounce pipeline", i, n))
+		}
+		w.tgt.mu.Lock()
+		acc := w.tgt.accepted[c12MsgID(i)]
+		w.tgt.mu.Unlock()
+		if acc > 0 {
+			out.Violation("C12/failure-report-twice", op, fmt.Sprintf("message %d was accepted by the next hop and a failure report was sent too", i))
+		}
+	}
+	w.dsn.mu.Unlock()
+	if len(w.extra) > 0 {
+		out.Stat("sched.background-goroutines")
 	}
 	// spool after shutdown / quiescence
 	sp := c12ReadSpool(w.dir, len(w.scn.times))
@@ -2105,6 +2334,24 @@ func c12RunFree(out *vh.Out, seed uint64) {
 	}
 	q := c12NewQueue(dir, tgt, budget+1)
 	q.initialRetryTime = retry
+	// a bounce pipeline is configured; in a third of the scenarios it is SLOW: it holds every failure report until the
+	// shutdown has begun and a while longer (it ends in another queue's disk write, a remote delivery), so the shutdown
+	// overlaps with the submission.  Close has to wait for it: what is gone from the spool when Close returns has its
+	// terminal outcome.
+	closing := make(chan struct{})
+	dsn := c12NewDsn()
+	dsn.stat = out.Stat
+	if r.Chance(33) {
+		dsn.hold = func() {
+			select {
+			case <-closing:
+			case <-time.After(10 * time.Second):
+			}
+			time.Sleep(4 * time.Millisecond)
+		}
+		out.Stat("free.slow-bounce-pipeline")
+	}
+	q.dsnPipeline = dsn
 	started := make(chan struct{})
 	var dmu sync.Mutex
 	var early, dispN int
@@ -2190,13 +2437,28 @@ func c12RunFree(out *vh.Out, seed uint64) {
 	closeDelay := time.Duration(r.Intn(6000)) * time.Microsecond
 	cg, _ := ctl.Spawn("closer", func() {
 		time.Sleep(closeDelay)
+		close(closing)
 		q.Close()
 	})
-	if !cg.Wait(15 * time.Second) {
+	if !cg.Wait(25 * time.Second) {
 		unhide()
 		atomic.AddInt32(&c12FreeHangs, 1)
-		out.Violation("C12/free-run/close-hang", op, "Queue.Close did not return within 15s")
+		out.Violation("C12/free-run/close-hang", op, "Queue.Close did not return within 25s")
 		return
+	}
+	for i, s := range c12ReadSpool(dir, np) {
+		if s.meta || s.broken || s.header || s.body || c12ReturnPath(i) == "" {
+			continue
+		}
+		tgt.mu.Lock()
+		acc, tried := tgt.accepted[c12MsgID(i)], tgt.attempts[c12MsgID(i)]
+		tgt.mu.Unlock()
+		dsn.mu.Lock()
+		ans := dsn.answered[i]
+		dsn.mu.Unlock()
+		if tried > 0 && acc == 0 && ans == 0 {
+			out.Violation("C12/free-run/outcome-lost-at-close", op, fmt.Sprintf("when Queue.Close returned message %d (attempts %d, every one failed) was gone from the spool and its failure report had not been taken by the bounce pipeline: removed without its terminal outcome, nothing is left for the restart", i, tried))
+		}
 	}
 	unhide()
 	tgt.mu.Lock()
